@@ -519,3 +519,78 @@ Lemma prox_dca_resume (gradg proxf : Rvec -> Rvec) (gamma : R) (n m : nat) (x : 
   iter (n + m) (prox_dca_step gradg proxf gamma) x
   = iter m (prox_dca_step gradg proxf gamma) (iter n (prox_dca_step gradg proxf gamma) x).
 Proof. apply iter_add. Qed.
+
+(* ============================ random order: the permutations are parameters *)
+Section ORD_R.
+Variable stepsize : R.
+Notation adopR := (@adop R).
+Lemma ad_sweep_ord_refines (ops : list adopR) (dflt : adopR) (ord : list nat) : forall (duals tmps : list Rvec) (x : Rvec),
+  (forall j, In j ord -> (ad_key (nth j ops dflt) < length tmps)%nat) ->
+  let '(xo, dso, _) := ad_sweep_ord_opt stepsize ops dflt ord duals tmps x in
+  (xo, dso) = ad_sweep_ord_ref stepsize ops dflt ord duals x.
+Proof.
+  induction ord as [|j ord IH]; intros duals tmps x Hk; [reflexivity|].
+  cbn [ad_sweep_ord_opt ad_sweep_ord_ref].
+  rewrite getnth_setnth by (apply Hk; now left).
+  apply IH. intros i Hi. rewrite setnth_length. apply Hk. now right.
+Qed.
+Lemma ad_sweep_ord_tmps_length (ops : list adopR) (dflt : adopR) (ord : list nat) : forall (duals tmps : list Rvec) (x : Rvec),
+  length (snd (ad_sweep_ord_opt stepsize ops dflt ord duals tmps x)) = length tmps.
+Proof.
+  induction ord as [|j ord IH]; intros duals tmps x; [reflexivity|].
+  cbn [ad_sweep_ord_opt]. rewrite IH. apply setnth_length.
+Qed.
+(* optimised = reference for every sequence of index lists (one per outer iteration) *)
+Lemma ad_ord_refines (ops : list adopR) (dflt : adopR) (order : nat -> list nat) :
+  (forall k j, In j (order k) -> (j < length ops)%nat) ->
+  forall n k0 x duals tmps,
+  (forall j, (j < length ops)%nat -> (ad_key (nth j ops dflt) < length tmps)%nat) ->
+  let so := iterk n k0 (fun k => ad_opt_step_ord stepsize ops dflt (order k)) (x, duals, tmps) in
+  let sr := iterk n k0 (fun k => ad_ref_step_ord stepsize ops dflt (order k)) (x, duals) in
+  fst so = sr.
+Proof.
+  intros Hord n; induction n as [|n IH]; intros k0 x duals tmps Hk; [reflexivity|].
+  cbn [iterk]. unfold ad_opt_step_ord at 2, ad_ref_step_ord at 2.
+  pose proof (ad_sweep_ord_refines ops dflt (order k0) duals tmps (ad_pre stepsize ops duals x)
+                ltac:(intros j Hj; apply Hk, (Hord k0 j Hj))) as E.
+  pose proof (ad_sweep_ord_tmps_length ops dflt (order k0) duals tmps (ad_pre stepsize ops duals x)) as El.
+  destruct (ad_sweep_ord_opt stepsize ops dflt (order k0) duals tmps (ad_pre stepsize ops duals x)) as [[xo dso] tmo].
+  rewrite <- E. cbn [snd] in El. apply IH. now rewrite El.
+Qed.
+End ORD_R.
+(* resumption with random order: exact when the second call continues the permutation stream *)
+Lemma kz_ord_resume (proj : Rvec -> Rvec) (ops : list (@kzop R)) (dflt : @kzop R) (order : nat -> list nat) (n m : nat) (x : Rvec) :
+  iterk (n + m) 0 (fun k => kz_step_ord proj ops dflt (order k)) x
+  = iterk m 0 (fun k => kz_step_ord proj ops dflt (order (n + k)%nat))
+      (iterk n 0 (fun k => kz_step_ord proj ops dflt (order k)) x).
+Proof. rewrite iterk_add, iterk_shift. reflexivity. Qed.
+
+(* ===================================== accelerated PDHG: (tau, sigma, x, x_relax, y) is the whole state *)
+Section PDHGacc_R.
+Variables (L Ladj : Rvec -> Rvec) (proxp proxd : R -> Rvec -> Rvec) (acc : R * R -> R * (R * R)).
+Lemma pdhg_acc_resume (n m : nat) (ts : R * R) (st : pdhg_st) :
+  pdhg_acc_iter L Ladj proxp proxd acc (n + m) ts st
+  = let '(ts1, st1) := pdhg_acc_iter L Ladj proxp proxd acc n ts st in
+    pdhg_acc_iter L Ladj proxp proxd acc m ts1 st1.
+Proof.
+  revert ts st; induction n as [|n IH]; intros ts st; cbn [pdhg_acc_iter Nat.add]; [reflexivity|].
+  destruct (acc ts) as [th ts']. apply IH.
+Qed.
+(* the recursive form is the counter-indexed form used for the regenerated program *)
+Lemma pdhg_acc_iter_iterk (n : nat) : forall (k0 : nat) (ts0 ts : R * R) (st : pdhg_st),
+  ts = acc_steps acc k0 ts0 ->
+  pdhg_acc_iter L Ladj proxp proxd acc n ts st
+  = (acc_steps acc (k0 + n) ts0,
+     iterk n k0 (fun k => let tk := acc_steps acc k ts0 in
+                          pdhg_step L Ladj (proxp (fst tk)) (proxd (snd tk)) (fst tk) (snd tk) (fst (acc tk))) st).
+Proof.
+  induction n as [|n IH]; intros k0 ts0 ts st E; cbn [pdhg_acc_iter iterk].
+  - now rewrite Nat.add_0_r, E.
+  - subst ts. destruct (acc (acc_steps acc k0 ts0)) as [th ts'] eqn:Ea.
+    rewrite (IH (S k0) ts0 ts').
+    + replace (S k0 + n)%nat with (k0 + S n)%nat by lia. cbn [fst]. reflexivity.
+    + assert (Hs : forall k t, acc_steps acc (S k) t = snd (acc (acc_steps acc k t))).
+      { induction k as [|k IHk]; intros t; cbn [acc_steps]; [reflexivity|]. apply IHk. }
+      rewrite Hs, Ea. reflexivity.
+Qed.
+End PDHGacc_R.
